@@ -674,6 +674,10 @@ class Interp(object):
             for (t0, alt0, s0) in self.state.notes:
                 if s0 is None and t0 == text:
                     return alt0
+        if isinstance(subject, tuple) and subject and subject[0] == 'dict-key':
+            for (t0, alt0, s0) in self.state.notes:
+                if isinstance(s0, tuple) and s0 and s0[0] == 'dict-key' and t0 == text and alt0 in alternatives and k(s0[1]) == k(subject[1]):
+                    return alt0
         if self._dpos < len(self._decisions):
             t, alt = self._decisions[self._dpos]
             self._dpos += 1
@@ -1113,6 +1117,17 @@ class Interp(object):
                 if f not in attrs:
                     if dflt is None:
                         raise Raised(Exc('TypeError', 'missing required argument %s' % f))
+                    if isinstance(dflt, ast.Call) and (isinstance(dflt.func, ast.Name) and dflt.func.id == 'field' or
+                                                       isinstance(dflt.func, ast.Attribute) and dflt.func.attr == 'field'):
+                        # dataclasses.field(default=..., default_factory=..., compare=...)
+                        kws = dict((kw_.arg, kw_.value) for kw_ in dflt.keywords)
+                        if 'default' in kws:
+                            attrs[f] = self.const_expr(cv.module, kws['default'])
+                        elif 'default_factory' in kws:
+                            attrs[f] = self.call(self.const_expr(cv.module, kws['default_factory']), [])
+                        else:
+                            raise Raised(Exc('TypeError', 'missing required argument %s' % f))
+                        continue
                     attrs[f] = self.const_expr(cv.module, dflt)
             obj.attrs = dict((f, attrs[f]) for f, _ in fields)
             if kind == 'namedtuple':
@@ -1282,7 +1297,15 @@ class Interp(object):
         elif isinstance(s, ast.For):
             from . import absmodels
             it = self.expr(s.iter, fr)
-            items, tail = absmodels.iter_items_tail(self, it)
+            if isinstance(it, GenV):
+                # an iterator is consumed item by item: what a `break` leaves behind is still there for whoever holds the iterator
+                def _drawn(g=it):
+                    while g.pos < len(g.items):
+                        g.pos += 1
+                        yield g.items[g.pos - 1]
+                items, tail = _drawn(), None
+            else:
+                items, tail = absmodels.iter_items_tail(self, it)
             broke = False
             n = 0
             for item in items:
@@ -1303,6 +1326,8 @@ class Interp(object):
                 except ContinueSig:
                     continue
             if not broke:
+                if isinstance(it, GenV) and it.pos >= len(it.items):
+                    tail, it.tail = it.tail, None
                 if tail is not None:
                     raise Raised(tail)
                 self.block(s.orelse, fr)
@@ -1386,7 +1411,13 @@ class Interp(object):
                     base = self.expr(t.value, fr)
                     idx = self.expr(t.slice, fr)
                     if isinstance(base, DictV):
-                        base.pairs = [p for p in base.pairs if k(p[0]) != k(idx)]
+                        kept = [p for p in base.pairs if k(p[0]) != k(idx)]
+                        if len(kept) == len(base.pairs):
+                            from .absmodels import is_concrete
+                            if is_concrete(idx) and all(is_concrete(p[0]) for p in base.pairs):
+                                raise Raised(Exc('KeyError', repr(idx)))       # no such key (a defaultdict does not help a del)
+                            self.imprecise('del of a key that may or may not be present')
+                        base.pairs = kept
                     else:
                         self.imprecise('del on %r' % (base,))
         elif isinstance(s, ast.Assert):
@@ -1556,7 +1587,44 @@ class Interp(object):
             if v.ignorance:
                 self.imprecise('branch on unmodelled value (%s) at %s' % (v.why, text))
             return self.decide('truth(%s)' % (text or repr(v)), [True, False], v)
+        known = self._order_known(v)
+        if known is not None:
+            return known
         return self.decide('truth(%s)' % (text if text else repr(v)), [True, False], v)
+
+    _ORDER_SAT = {'lt': frozenset('<'), 'le': frozenset('<='), 'gt': frozenset('>'), 'ge': frozenset('>='), 'eq': frozenset('='), 'ne': frozenset('<>')}
+
+    def _order_known(self, v):
+        """Trichotomy: the comparisons of one pair of orderable values already decided on this trace may settle this one
+        (not a < b and not a > b leaves a = b; a < b excludes a > b)."""
+        SAT = self._ORDER_SAT
+        if not (isinstance(v, Atom) and v.op in SAT and len(v.args) == 2):
+            return None
+        if not all(a.tag in ('int', 'float', 'str', 'datetime', 'date') for a in v.args):
+            return None
+        ka, kb = k(v.args[0]), k(v.args[1])
+        flip = {'<': '>', '>': '<', '=': '='}
+        feas = set('<=>')
+        seen = False
+        for (t0, alt0, s0) in self.state.notes:
+            if isinstance(s0, Atom) and s0.op in SAT and len(s0.args) == 2 and isinstance(alt0, bool) and t0.startswith('truth('):
+                k0 = (k(s0.args[0]), k(s0.args[1]))
+                if k0 == (ka, kb):
+                    sat = set(SAT[s0.op])
+                elif k0 == (kb, ka):
+                    sat = set(flip[x] for x in SAT[s0.op])
+                else:
+                    continue
+                seen = True
+                feas &= sat if alt0 else (set('<=>') - sat)
+        if not seen:
+            return None
+        mine = set(SAT[v.op])
+        if feas and feas <= mine:
+            return True
+        if not (feas & mine):
+            return False
+        return None
 
     # -- expressions --------------------------------------------------------------------------------
     def expr(self, e, fr):
@@ -1627,6 +1695,17 @@ class Interp(object):
                 return bm
             ca = self.model.class_attr(base.cls.module, base.cls.node, attr)
             if ca:
+                node_ = ca[2]
+                if isinstance(node_, ast.Call) and (sa.call_name(node_) or '').split('.')[-1] == 'partialmethod' and node_.args and \
+                        isinstance(node_.args[0], ast.Name):
+                    # once = partialmethod(on, once=True): the named method of this object with the preset arguments
+                    target = self.get_method(base, node_.args[0].id)
+                    if target:
+                        pre = [self.const_expr(ca[0], a_) for a_ in node_.args[1:]]
+                        prekw = dict((kw_.arg, self.const_expr(ca[0], kw_.value)) for kw_ in node_.keywords if kw_.arg)
+                        nm = 'hx:partialmethod:%d' % len(self.extern)
+                        self.extern[nm] = lambda it, a_, kw_, target=target, pre=pre, prekw=prekw: it.call(target, pre + list(a_), dict(prekw, **kw_))
+                        return Builtin(nm)
                 return self.const_expr(ca[0], ca[2])
             if base.cls.name == 'YaccProduction' and attr == 'slice':
                 return base.attrs.get('slice', Top('slice'))
